@@ -415,6 +415,8 @@ impl<T: Sync + Send + 'static> Nucleo<T> {
                     crate::verif::point("tick.lock_failed");
                     // ask the worker to notify us once it is done
                     self.should_notify.store(true, Ordering::SeqCst);
+                    #[cfg(nucleo_verif)]
+                    crate::verif::point("tick.rearmed");
                     atomic::fence(Ordering::SeqCst);
                     // the worker may have finished (and looked at the flag) between the
                     // failed lock attempt and the store above, in that case nobody is
@@ -466,6 +468,8 @@ impl<T: Sync + Send + 'static> Nucleo<T> {
                 // release the worker before notifying so that a tick triggered by the
                 // notification is able to lock it and pick up the results
                 drop(inner);
+                #[cfg(nucleo_verif)]
+                crate::verif::point("run.released");
                 atomic::fence(Ordering::SeqCst);
                 if !was_canceled && should_notify.load(Ordering::SeqCst) {
                     notify()
